@@ -32,8 +32,8 @@ Qed.
 Lemma bh_handle_req st c r : bh_eq (fst (handle_req st c r)) st.
 Proof.
   destruct r; cbn [handle_req].
-  - destruct (find_uni _ _); cbn; [apply bh_apply_dmx|apply bh_refl].
-  - destruct (find_uni _ _); cbn; [apply bh_apply_dmx|apply bh_refl].
+  - destruct (find_uni _ _); cbn; [apply bh_apply_dmx|split; reflexivity].
+  - destruct (find_uni _ _); cbn; [apply bh_apply_dmx|split; reflexivity].
   - destruct (find_uni _ _); cbn; apply bh_refl.
   - destruct on; destruct (find_uni _ _); cbn; split; reflexivity.
   - destruct (find_uni _ _); cbn; split; reflexivity.
